@@ -35,6 +35,10 @@ PROP = dict(
         "x/onboarding/ibc_middleware.go OnRecvPacket (the callback runs only after a successful transfer acknowledgement: the credit precedes it)",
     ],
     assumptions=[
+        "the model is handed the parameters the history COMMITTED (through the keeper, MsgUpdateParams with the gov authority, or a legacy ParameterChangeProposal), not the ones the keeper "
+        "reports; before a quarter of the packets (always in a replay) a different parameter set is written on a branch that is discarded, and the Go-side monitor "
+        "`onboarding-params-differ-from-last-committed-update` requires GetParams to equal the last committed update. An empty whitelist is never committed through the legacy route "
+        "(amino JSON `null` decoded over the stored value by Subspace.Update would leave the old list in place)",
         "a panic inside the callback (sdkmath overflow in GetOutputPrice for reserves near 2^200, index out of range on a topic-less log in monitorApprovalEvent) aborts the delivering transaction, "
         "which baseapp rolls back together with the transfer module's credit: modelled by `recv`; the harness runs credit + callback on one cache branch with recover and checks nothing remains",
         "the conversion branch (ctx.CacheContext, written only when ConvertCoin returns no error) is the code's own; that a dropped branch leaves no trace in bank or EVM state is cosmos-sdk store behaviour, "
